@@ -29,6 +29,15 @@ HEADER = '''\
 import functools as _functools
 from dst.world.rt import R as _R, P as _P, M as _M, Q as _Q, H as _H, RUN as _RUN, E0 as _E0, SUSP as _SUSP, RND as _RND
 
+class _LazyObj:
+    """What a stale name may be bound to after a refactoring: a lazily initialised singleton that cannot even be printed yet."""
+
+    def __repr__(self):
+        raise RuntimeError("not initialised")
+
+    __str__ = __repr__
+
+
 _OFF = globals().get("_OFF", 0)  # fid offset: non-zero only in a twin copy of this module (same source, other file)
 
 
@@ -282,6 +291,8 @@ def render_func(f, ind=0, annotations=None):
         return [f"{i}class {f['name']}:", f"{i}    pass"]
     if ch == "value":
         return [f"{i}{f['name']} = 42"]
+    if ch == "lazyobj":
+        return [f"{i}{f['name']} = _LazyObj()"]
     if ch == "local":
         g = dict(f, churn=None)
         return [f"{i}def _holder_{f['name']}():"] + render_func(g, ind + 4, annotations) + [f"{i}    return {f['name']}"]
@@ -337,6 +348,8 @@ def render_module(spec, modname, extra_header=""):
             return []
         if c.get("churn") == "value":
             return [f"{i}{c['name']} = 42", ""]
+        if c.get("churn") == "lazyobj":
+            return [f"{i}{c['name']} = _LazyObj()", ""]
         if c.get("churn") == "function":
             return [f"{i}def {c['name']}():", f"{i}    pass", ""]
         bases = "(" + ", ".join(c["bases"]) + ")" if c["bases"] else ""
@@ -491,7 +504,7 @@ def load(spec, root=None):
 
     for f in spec["funcs"]:
         lp.funcs[f["fid"]] = f
-        if f.get("churn") in ("removed", "class", "value", "local") or f["module"] not in lp.modules or (f.get("cls") and f["cls"] not in lp.classes):
+        if f.get("churn") in ("removed", "class", "value", "lazyobj", "local") or f["module"] not in lp.modules or (f.get("cls") and f["cls"] not in lp.classes):
             if f.get("inner"):
                 inner = f["inner"]
                 lp.funcs[inner["fid"]] = dict(inner, kind="inner", module=f["module"], cls=None, name="_inner%d" % inner["fid"], outer_fid=f["fid"])
